@@ -14,6 +14,7 @@ CONSTANTS G,        \* lattice is 0..G x 0..G
           MaxV,     \* maximal number of vertices
           Relabel,  \* TRUE: Reverse/Shift are actions (all 2n relabellings are states)
           WithBalls, \* TRUE: records carry the exact ball data of C13
+          WithFF,    \* TRUE: records carry the exact form factor at q = pi m (C12)
           WithRadial, \* TRUE: (convex polygons) records carry exact centroid-to-boundary distances along integer directions (C14)
           EmitOn    \* TRUE: print records
 
@@ -118,6 +119,23 @@ BallRecord ==
         inner |-> [min |-> {[div |-> << [q |-> << Abs(sc(poly[i])[1] * (poly[Nxt(i, n)][2] - poly[i][2]) - sc(poly[i])[2] * (poly[Nxt(i, n)][1] - poly[i][1])), D >>],
                                         [sqrt |-> [q |-> <<Dist2sq(poly[i], poly[Nxt(i, n)]), 1>>]] >>] : i \in 1..n}]]
 
+(* ---- form factor at q = pi * m (C12) ------------------------------------------------------------ *)
+\* Fourier transform of a triangle with vertices v_1, v_2, v_3 (simplex formula):
+\*   F(q) = 2A * sum_j exp(-i q.v_j) / prod_{k # j} (-i q.(v_j - v_k))
+\* For q = pi m with integer m:  exp(-i q.v_j) = (-1)^(m.v_j)  and  q.(v_j - v_k) = pi d_jk  with integer d_jk, so
+\*   pi^2 F(q) = - sum_j  (2A) (-1)^(m.v_j) / (d_jk d_jl),   real and rational, provided no d vanishes ("generic" m).
+\* The polygon's transform is the sum over the triangles of its growth triangulation.
+FFWaves2 == << <<1, 2>>, <<2, 1>>, <<3, -1>>, <<1, 3>>, <<-2, 3>>, <<5, 2>>, <<3, 4>>, <<-1, 4>>, <<7, -3>>, <<1, -5>> >>
+DotM(m, p) == m[1] * p[1] + m[2] * p[2]
+GenericFor(m) == \A t \in tris : \A j, k \in 1..3 : j # k => DotM(m, Sub2(t[j], t[k])) # 0
+TriTerms(m, t) == { [n |-> -TriDet(t) * (IF DotM(m, t[j]) % 2 = 0 THEN 1 ELSE -1),
+                     d |-> DotM(m, Sub2(t[j], t[Nxt(j, 3)])) * DotM(m, Sub2(t[j], t[Prv(j, 3)])),
+                     id |-> <<t, j>>] : j \in 1..3 }
+FFRecord2 == [i \in 1..Len(FFWaves2) |->
+    LET m == FFWaves2[i] IN
+    [m |-> m, generic |-> GenericFor(m),
+     pi2F |-> IF GenericFor(m) THEN UNION {TriTerms(m, t) : t \in tris} ELSE {}]]      \* pi^2 F = sum of n/d
+
 (* ---- radial distance from the centroid (C14) --------------------------------------------------- *)
 \* The ray  c + t u  (c = cnum / D the exact centroid, u an integer direction) leaves a convex polygon through the
 \* unique edge (a, b) with  t = cross(a - c, b - a) / cross(u, b - a) > 0  and the hit point between a and b.
@@ -140,6 +158,6 @@ Directions == LET D == 3 * DArea2(tris)  c == DCnum(tris) IN
     ({<<x, y>> : x, y \in -2..2} \ {<<0, 0>>}) \cup {<<D * poly[i][1] - c[1], D * poly[i][2] - c[2]>> : i \in 1..Len(poly)}
 RadialRecord == IF (IF Ccw THEN StrictlyConvexCcw(poly) ELSE StrictlyConvexCcw(Rev(poly))) THEN {RadialHit(u) : u \in Directions} ELSE {}
 
-Emit == EmitOn => PrintT(ToJson(IF WithRadial THEN Record @@ [radial |-> RadialRecord] ELSE IF WithBalls THEN [Record EXCEPT !.k = "polygon"] @@ [balls |-> BallRecord] ELSE Record))
+Emit == EmitOn => PrintT(ToJson(IF WithFF THEN Record @@ [ff |-> FFRecord2] ELSE IF WithRadial THEN Record @@ [radial |-> RadialRecord] ELSE IF WithBalls THEN [Record EXCEPT !.k = "polygon"] @@ [balls |-> BallRecord] ELSE Record))
 ViewPoly == poly      \* emission runs identify states that differ only in the triangulation
 =============================================================================
